@@ -296,6 +296,23 @@ theorem remove_trailing_blank_lines_total (l : Bytes) (h : l ≠ []) : (removeTr
 theorem chop_hashtags_unguarded_counterexample :
     chopHashtags [0x20, 0x20] = none ∧ removeTrailingBlankLines [] = none := by decide
 
+/-! ## CommonMark writer prefix bookkeeping (witness of a defect found by the search stage) -/
+
+/-- When the next number has as many digits as this one the prefix returns to its old length. -/
+theorem cm_prefix_restored_partial (n : Nat) (h : numDigits (n + 1) = numDigits n) : cmQuoteItemPrefix n = some 0 := by
+  unfold cmQuoteItemPrefix
+  simp only [h]
+  have : 2 + (numDigits n + 2) > numDigits n + 2 := by omega
+  simp only [this, if_true]
+  have e : 2 + (numDigits n + 2) - (numDigits n + 2) = 2 := by omega
+  simp [e]
+
+/-- `>9)`: leaving item 9 removes the width of "10) " and eats one byte of the quote's "> "; leaving the
+    quote then computes `1 - 2`. Panics in debug builds (known finding C01-cm-prefix-underflow); in
+    release the wrapped length makes `truncate` a no-op and a stale `>` stays in the prefix. -/
+theorem cm_prefix_underflow_counterexample : cmQuoteItemPrefix 9 = none ∧ cmQuoteItemPrefix 99 = none ∧ cmQuoteItemPrefix 8 = some 0 := by
+  decide
+
 /-! Non-vacuity -/
 example : shortestUnused [0x61, 0x60, 0x62, 0x60, 0x60, 0x60] 0x60 = 2 := by decide
 example : runs 0x60 [0x61, 0x60, 0x62, 0x60, 0x60, 0x60] = [1, 3] := by decide
@@ -306,5 +323,6 @@ example : numericEntity [0x23, 0x39, 0x39, 0x39, 0x39, 0x39, 0x39, 0x39, 0x3B] =
 example : normalizeCode [0x20, 0x61, 0x0D, 0x0A, 0x62, 0x20] = [0x61, 0x20, 0x62] := by decide
 example : chopHashtags [0x61, 0x20, 0x23, 0x23, 0x20] = some [0x61] := by decide
 example : removeTrailingBlankLines [0x61, 0x0A, 0x20, 0x0A, 0x0A] = some [0x61] := by decide
+example : numDigits 123 + 1 = numDigits 124 + 1 ∧ cmQuoteItemPrefix 123 = some 0 := by decide
 
 end Comrak.C01
